@@ -4,4 +4,7 @@ EXTENDS Quant
 MInit == Init /\ PrintT(ToJson([init |-> inst, row |-> RowOf(I, raw)]))
 MStep == Step /\ PrintT(ToJson([row |-> RowOf(I, raw')]))
 MSpec == MInit /\ [][MStep]_vars
+\* composite table: one printed row per (composite, raw tuple)
+MCInit == CInit /\ PrintT(ToJson([crow |-> CRow]))
+MCSpec == MCInit /\ [][CNext]_vars
 ====
